@@ -62,9 +62,11 @@ def output_xml_report(tex, plain, charmap, matches, byte_offset, file, out):
         cont_offset = json_get(cont, 'offset', int)
         cont_length = json_get(cont, 'length', int)
         if byte_offset:
+            # NB: output replaces characters that cannot be encoded
             cont_length = len(cont_text[cont_offset:cont_offset+cont_length]
-                                    .encode())
-            cont_offset = len(cont_text[:cont_offset].encode())
+                                    .encode(errors='replace'))
+            cont_offset = len(cont_text[:cont_offset]
+                                    .encode(errors='replace'))
 
         xml = {
             'fromy': str(fromy), 'fromx': str(fromx),
